@@ -1,99 +1,184 @@
 /* VERIF-UNIT
 {
- "name": "block_alloc_stats_range_1group",
+ "name": "block_alloc_stats_range_r1",
  "props": ["C09"],
- "level": "B(1)",
+ "level": "U",
  "tier": "wip",
  "harness": "h_range",
+ "defines": ["CRB=0"],
  "enforce": ["ext2fs_block_alloc_stats_range"],
- "unwind": 2,
- "unwind_reason": "the harness restricts the range to ONE block group (blk+num-1 <= last block of blk's group), so the per-group loop runs once; the unwinding assertion checks that",
+ "loop_contracts": true,
  "functions": ["lib/ext2fs/alloc_stats.c:ext2fs_block_alloc_stats_range"],
- "assumes": ["BOUNDED STAND-IN: the range lies inside one block group (multi-group ranges need a loop contract over the group partition: not done)",
-             "range is cluster aligned (blk and num multiples of the cluster ratio); cluster ratio 1 or 16 only (symbolic division by the ratio does not terminate)",
-             "accessors are stubs over single-index ghost state (alloc_stats_common.h); group_of_blk2 / group_last_block2 are stubs returning an arbitrary valid group and its last block",
-             "FULL contract incl. 'callback is told the range' and 'range starting below s_first_data_block changes nothing': both FAIL on the pinned tree (findings)"],
+ "assumes": ["cluster ratio 1 in this unit (ratio 16: block_alloc_stats_range_r16); a symbolic ratio makes the division in the loop body intractable, the two units enumerate 'no bigalloc' and one bigalloc ratio",
+             "the range is cluster aligned (blk and num multiples of the ratio: ext2fs_alloc_range/ext2fs_new_range and fallocate's claim_range pass whole clusters) and blk < 2^63 (no 64-bit wrap of blk + num)",
+             "blk >= s_first_data_block (every call site passes blocks obtained from the block bitmap; the function itself has no lower bound check: observation unit block_alloc_stats_range_full)",
+             "block -> group map: a stub geometry in which the ghost group g_G owns the block interval [GF, GL] and every other block belongs to some other valid group whose last block is arbitrary but consistent (not below the block asked for, below GF if the block is below GF, inside the filesystem); group boundaries are cluster aligned (blocks per group is a multiple of the ratio, s_first_data_block is 0 with bigalloc)",
+             "bitmap / descriptor / superblock accessors are stubs over single-index ghost state (alloc_stats_common.h)",
+             "about the callback only 'called exactly once after the update when installed' is claimed (its arguments: observation unit)"],
  "native": false,
  "backend": "cadical"
 }
 */
 /* VERIF-UNIT
 {
- "name": "block_alloc_stats_range_1group_nocb",
+ "name": "block_alloc_stats_range_r16",
  "props": ["C09"],
- "level": "B(1)",
+ "level": "U",
  "tier": "wip",
- "harness": "h_range_nocb",
+ "harness": "h_range",
+ "defines": ["CRB=4"],
  "enforce": ["ext2fs_block_alloc_stats_range"],
- "unwind": 2,
- "unwind_reason": "the harness restricts the range to ONE block group, so the per-group loop runs once; the unwinding assertion checks that",
+ "loop_contracts": true,
  "functions": ["lib/ext2fs/alloc_stats.c:ext2fs_block_alloc_stats_range"],
- "assumes": ["as block_alloc_stats_range_1group, but excluding the two findings: no range callback installed, blk >= s_first_data_block"],
+ "assumes": ["as block_alloc_stats_range_r1 with cluster ratio 16"],
+ "native": false,
+ "backend": "cadical"
+}
+*/
+/* VERIF-UNIT
+{
+ "name": "block_alloc_stats_range_full",
+ "props": ["C09"],
+ "level": "U",
+ "tier": "obs",
+ "harness": "h_range_full",
+ "defines": ["CRB=0", "FULL=1"],
+ "enforce": ["ext2fs_block_alloc_stats_range"],
+ "loop_contracts": true,
+ "functions": ["lib/ext2fs/alloc_stats.c:ext2fs_block_alloc_stats_range"],
+ "assumes": ["OBSERVATION (more than C09 demands, fails on the tree): (a) the callback fs->block_alloc_stats_range must be told (blk, num, +-1) of the range — the code calls it after the loop has advanced blk and zeroed num, so it hears (blk+num, 0); (b) a range starting below s_first_data_block must change nothing — there is no lower bound check",
+             "otherwise as block_alloc_stats_range_r1"],
  "native": false,
  "backend": "cadical"
 }
 */
 /*
- * STATUS: wip, NOT RUNNING — both units time out (150 s, minisat and cadical).  The loop body computes
- * inuse*n/EXT2FS_CLUSTER_RATIO(fs) and -inuse*(blk64_t)n: two 64-bit symbolic products and a 64-bit division by a
- * symbolic value; fixing the ratio per call in the harness did not help (fs is reached through the contract wrapper's
- * pointer, no constant propagation).  Next steps: per-ratio units via "defines", inuse fixed per unit; then the
- * multi-group loop contract (ghost group interval [GF,GL], invariant "g_gfree == old -/+ |[blk0,blk) n [GF,GL]| >> crb").
- * The two findings below are visible by reading the code and (a) is independent of the arithmetic.
+ * ext2fs_block_alloc_stats_range over any number of block groups (C09: "i_blocks and the block bitmap matching what
+ * the files map" needs bitmap range, per-group free counts, superblock free count and dirty flags to move together).
  *
- * ext2fs_block_alloc_stats_range on a range inside one group.
- * Findings on the pinned tree (unit block_alloc_stats_range_1group):
- *  (a) the callback fs->block_alloc_stats_range is invoked AFTER the loop has advanced blk and zeroed num: it is told
- *      (blk+num, 0, +-1) instead of (blk, num, +-1) -> e2fsck's block_found_map / resize2fs never hear about the range;
- *  (b) no lower bound check (blk < s_first_data_block, e.g. block 0 of a 1k-block fs) — the single-block version has one.
+ * Pointwise statement for ONE ghost group g_G owning blocks [GF, GL] and ONE ghost cluster verif_k:
+ *   valid range, inuse != 0:  bit(verif_k) := (inuse > 0) iff the cluster lies in the range, else unchanged;
+ *                             free count of g_G moves by -+ |range n [GF, GL]| / ratio, BLOCK_UNINIT cleared and the
+ *                             descriptor checksum recomputed iff the intersection is not empty;
+ *                             superblock free blocks move by -+ num; super + block bitmap dirty;
+ *   invalid range (beyond blocks_count) or inuse == 0: nothing changes.
+ * The per-group loop is closed by the in-place loop contract VERIF_INV_BLOCK_ALLOC_STATS_RANGE (hooks-pending/fio.diff).
  */
 #include "alloc_stats_common.h"
 
-unsigned long long g_gof_arg;
-dgrp_t ext2fs_group_of_blk2(ext2_filsys fs, blk64_t blk) { g_gof_arg = blk; return IN.group; }
-blk64_t ext2fs_group_last_block2(ext2_filsys fs, dgrp_t group) { GRPCHK(fs, group); return IN.last[0]; }
+#ifndef CRB
+#define CRB 0
+#endif
+#define MASK ((1ULL << CRB) - 1)
 
-#define KIN(blk, num, crb) (verif_k >= ((blk) >> (crb)) && verif_k <= (((blk) + (num) - 1) >> (crb)))
+unsigned long long g_gof_arg;		/* block of the last group_of lookup */
+unsigned long long g_GF, g_GL;		/* ghost group's first / last block */
+#define IN_G(b) ((b) >= g_GF && (b) <= g_GL)
+
+dgrp_t ext2fs_group_of_blk2(ext2_filsys fs, blk64_t blk)
+{
+	g_gof_arg = blk;
+	return IN_G(blk) ? g_G : IN.grp[0];		/* IN.grp[0] != g_G, valid (harness) */
+}
+blk64_t ext2fs_group_last_block2(ext2_filsys fs, dgrp_t group)
+{
+	GRPCHK(fs, group);
+	if (group == g_G)
+		return g_GL;
+	/* some other group: its last block is not below the block just looked up, does not reach into the ghost group,
+	 * lies inside the filesystem, and is the last block of a cluster */
+	ASSUME(IN.last[0] >= g_gof_arg && IN.last[0] < IN.blocks_count && (g_gof_arg > g_GL || IN.last[0] < g_GF));
+	ASSUME(((IN.last[0] + 1) & MASK) == 0);
+	return IN.last[0];
+}
+
+#define KIN(blk, num) (verif_k >= ((blk) >> CRB) && verif_k <= (((blk) + (num) - 1) >> CRB))
 void ext2fs_mark_block_bitmap_range2(ext2fs_block_bitmap bmap, blk64_t block, unsigned int num)
-{ g_touch++; if (num && KIN(block, num, FS.cluster_ratio_bits)) g_bit = 1; }
+{ g_touch++; if (num && KIN(block, num)) g_bit = 1; }
 void ext2fs_unmark_block_bitmap_range2(ext2fs_block_bitmap bmap, blk64_t block, unsigned int num)
-{ g_touch++; if (num && KIN(block, num, FS.cluster_ratio_bits)) g_bit = 0; }
+{ g_touch++; if (num && KIN(block, num)) g_bit = 0; }
 
-#define RANGE_VALID(fs, blk, num) ((blk) >= (fs)->super->s_first_data_block && (blk) + (num) >= (blk) && (blk) + (num) <= IN.blocks_count)
-#define ACTIVE(fs, blk, num, inuse) (RANGE_VALID(fs, blk, num) && (inuse) != 0 && (num) != 0)
+#define MINU(a, b) ((a) < (b) ? (a) : (b))
+#define MAXU(a, b) ((a) > (b) ? (a) : (b))
+/* number of blocks of [a, b) that belong to the ghost group */
+#define ISECT(a, b) (MINU(b, g_GL + 1) > MAXU(a, g_GF) ? MINU(b, g_GL + 1) - MAXU(a, g_GF) : 0ULL)
+#define MOVED(old, amount, inuse) ((inuse) > 0 ? (old) - (amount) : (old) + (amount))
+
+#ifdef FULL
+#define LOWER_OK(fs, blk) ((blk) >= (fs)->super->s_first_data_block)
+#else
+#define LOWER_OK(fs, blk) 1
+#endif
+#define RANGE_VALID(fs, blk, num) (LOWER_OK(fs, blk) && (blk) + (num) <= IN.blocks_count)
+#define ACTIVE(fs, blk, num, inuse) (RANGE_VALID(fs, blk, num) && (inuse) != 0)
 #define GHOSTS g_bit, g_gfree, g_gdirs, g_gflags, g_gunused, g_gfresh, g_sfree, g_other, g_cb_calls, g_cb_blk, g_cb_num, \
 	g_cb_inuse, g_cb_flags_seen, g_cb_sfree_seen, g_badgroup, g_touch, g_gof_arg
 
+/* in-place loop contract of the per-group loop; B0/N0 = range on loop entry */
+#define LE(x) __CPROVER_loop_entry(x)
+#undef VERIF_INV_BLOCK_ALLOC_STATS_RANGE
+#define VERIF_INV_BLOCK_ALLOC_STATS_RANGE \
+	__CPROVER_assigns(blk, num, g_gfree, g_gflags, g_gfresh, g_sfree, g_other, g_badgroup, g_touch, g_gof_arg) \
+	__CPROVER_loop_invariant(inuse == 1 || inuse == -1) \
+	__CPROVER_loop_invariant(blk >= LE(blk) && blk + num == LE(blk) + LE(num)) \
+	__CPROVER_loop_invariant((blk & MASK) == 0 && (num & MASK) == 0) \
+	__CPROVER_loop_invariant(g_gfree == MOVED(LE(g_gfree), (unsigned int)(ISECT(LE(blk), blk) >> CRB), inuse)) \
+	__CPROVER_loop_invariant(g_gflags == (ISECT(LE(blk), blk) ? (LE(g_gflags) & ~(unsigned int)EXT2_BG_BLOCK_UNINIT) : LE(g_gflags))) \
+	__CPROVER_loop_invariant(g_gfresh == 1 && g_badgroup == 0) \
+	__CPROVER_loop_invariant(g_sfree == MOVED(LE(g_sfree), blk - LE(blk), inuse)) \
+	__CPROVER_decreases(num)
+
 void ext2fs_block_alloc_stats_range(ext2_filsys fs, blk64_t blk, blk_t num, int inuse)
-	REQUIRES(fs->cluster_ratio_bits >= 0 && fs->cluster_ratio_bits <= 19)
-	REQUIRES((blk & ((1ULL << fs->cluster_ratio_bits) - 1)) == 0 && (num & ((1ULL << fs->cluster_ratio_bits) - 1)) == 0)
-	REQUIRES(!RANGE_VALID(fs, blk, num) || (IN.group < fs->group_desc_count && (num == 0 || blk + num - 1 <= IN.last[0])))
+	REQUIRES(fs->cluster_ratio_bits == CRB)
+	REQUIRES((blk & MASK) == 0 && (num & MASK) == 0 && blk < (1ULL << 63))
+#ifndef FULL
+	REQUIRES(blk >= fs->super->s_first_data_block)
+#endif
+	REQUIRES(g_GF <= g_GL && g_GL < IN.blocks_count && (g_GF & MASK) == 0 && ((g_GL + 1) & MASK) == 0)
+	REQUIRES(g_G < fs->group_desc_count && IN.grp[0] < fs->group_desc_count && IN.grp[0] != g_G)
 	REQUIRES(g_gfresh == 1 && g_cb_calls == 0 && g_badgroup == 0 && g_touch == 0)
 	ASSIGNS(GHOSTS, fs->flags)
-	/* invalid range or inuse == 0: nothing changes */
+	/* invalid range or inuse == 0: nothing changes, nobody is told */
 	ENSURES(ACTIVE(fs, blk, num, inuse) || (g_bit == OLD(g_bit) && g_gfree == OLD(g_gfree) && g_gflags == OLD(g_gflags) &&
-		g_sfree == OLD(g_sfree) && g_cb_calls == 0))
+		g_sfree == OLD(g_sfree) && g_cb_calls == 0 && g_gfresh == 1))
 	ENSURES(RANGE_VALID(fs, blk, num) || (g_touch == 0 && fs->flags == OLD(fs->flags)))
-	ENSURES(!ACTIVE(fs, blk, num, inuse) || g_bit == (KIN(blk, num, fs->cluster_ratio_bits) ? (inuse > 0) : OLD(g_bit)))
-	ENSURES(!ACTIVE(fs, blk, num, inuse) || g_gfree == (g_G != IN.group ? OLD(g_gfree) :
-		inuse > 0 ? OLD(g_gfree) - (num >> fs->cluster_ratio_bits) : OLD(g_gfree) + (num >> fs->cluster_ratio_bits)))
-	ENSURES(!ACTIVE(fs, blk, num, inuse) || g_gflags == (g_G == IN.group ? (OLD(g_gflags) & ~(unsigned int)EXT2_BG_BLOCK_UNINIT) : OLD(g_gflags)))
+	/* valid range: bitmap, ghost group's count and flags, superblock count, dirty flags move together */
+	ENSURES(!ACTIVE(fs, blk, num, inuse) || g_bit == (num && KIN(blk, num) ? (inuse > 0) : OLD(g_bit)))
+	ENSURES(!ACTIVE(fs, blk, num, inuse) ||
+		g_gfree == MOVED(OLD(g_gfree), (unsigned int)(ISECT(blk, blk + num) >> CRB), inuse))
+	ENSURES(!ACTIVE(fs, blk, num, inuse) ||
+		g_gflags == (ISECT(blk, blk + num) ? (OLD(g_gflags) & ~(unsigned int)EXT2_BG_BLOCK_UNINIT) : OLD(g_gflags)))
 	ENSURES(!ACTIVE(fs, blk, num, inuse) || g_gfresh == 1)
-	ENSURES(!ACTIVE(fs, blk, num, inuse) || g_sfree == (inuse > 0 ? OLD(g_sfree) - num : OLD(g_sfree) + num))
+	ENSURES(!ACTIVE(fs, blk, num, inuse) || g_sfree == MOVED(OLD(g_sfree), (unsigned long long)num, inuse))
 	ENSURES(!ACTIVE(fs, blk, num, inuse) || fs->flags == (OLD(fs->flags) | EXT2_FLAG_DIRTY | EXT2_FLAG_CHANGED | EXT2_FLAG_BB_DIRTY))
-	ENSURES(g_badgroup == 0)
+	ENSURES(g_badgroup == 0 && g_gdirs == OLD(g_gdirs) && g_gunused == OLD(g_gunused))
+	/* the allocation callback (e2fsck / resize2fs keep their own maps with it) is called once, after the update */
 	ENSURES(!ACTIVE(fs, blk, num, inuse) || (fs->block_alloc_stats_range ?
-		(g_cb_calls == 1 && g_cb_blk == blk && g_cb_num == num && (g_cb_inuse > 0) == (inuse > 0) && g_cb_inuse != 0) : g_cb_calls == 0));
+		(g_cb_calls == 1 && g_cb_flags_seen == fs->flags && g_cb_sfree_seen == g_sfree
+#ifdef FULL
+		 && g_cb_blk == blk && g_cb_num == num && (g_cb_inuse > 0) == (inuse > 0) && g_cb_inuse != 0
+#endif
+		) : g_cb_calls == 0));
 
 #include "lib/ext2fs/alloc_stats.c"
 
 static void range_body(void)
 {
-	unsigned long long mask = (1ULL << IN.crb) - 1;
-	ASSUME((IN.blk & mask) == 0 && (IN.num & mask) == 0);
-	int valid = IN.blk >= IN.first_data_block && IN.blk + IN.num >= IN.blk && IN.blk + IN.num <= IN.blocks_count;
-	ASSUME(!valid || (IN.group < IN.group_desc_count && (IN.num == 0 || IN.blk + IN.num - 1 <= IN.last[0])));
-	int active = valid && IN.inuse != 0 && IN.num != 0;
+	build_fs();
+	FS.cluster_ratio_bits = CRB;
+	ASSUME((IN.blk & MASK) == 0 && (IN.num & MASK) == 0 && IN.blk < (1ULL << 63));
+#ifndef FULL
+	ASSUME(IN.blk >= IN.first_data_block);
+#endif
+	g_GF = IN.GF; g_GL = IN.GL;
+	ASSUME(g_GF <= g_GL && g_GL < IN.blocks_count && (g_GF & MASK) == 0 && ((g_GL + 1) & MASK) == 0);
+	ASSUME(g_G < IN.group_desc_count && IN.grp[0] < IN.group_desc_count && IN.grp[0] != g_G);
+	int lower_ok = 1;
+#ifdef FULL
+	lower_ok = IN.blk >= IN.first_data_block;
+#endif
+	int valid = lower_ok && IN.blk + IN.num <= IN.blocks_count;
+	int active = valid && IN.inuse != 0;
 	FS.block_alloc_stats_range = IN.have_cb ? cb_range : 0;
 	int bit0 = g_bit, flags0 = FS.flags;
 	unsigned int gfree0 = g_gfree, gflags0 = g_gflags;
@@ -107,38 +192,25 @@ static void range_body(void)
 		CHECK(valid || (g_touch == 0 && FS.flags == flags0), "invalid range: not even dirty flags");
 		REACH("inactive");
 	} else {
-		unsigned int nc = IN.num >> IN.crb;
-		CHECK(g_bit == (KIN(IN.blk, IN.num, IN.crb) ? (IN.inuse > 0) : bit0), "bitmap: exactly the clusters of the range become inuse");
-		CHECK(g_gfree == (g_G != IN.group ? gfree0 : IN.inuse > 0 ? gfree0 - nc : gfree0 + nc), "group free count moves by the number of clusters");
-		CHECK(g_gflags == (g_G == IN.group ? (gflags0 & ~(unsigned int)EXT2_BG_BLOCK_UNINIT) : gflags0), "BLOCK_UNINIT cleared in the group only");
-		CHECK(g_gfresh == 1, "descriptor checksum recomputed");
+		unsigned long long isect = ISECT(IN.blk, IN.blk + IN.num);
+		unsigned int nc = (unsigned int)(isect >> CRB);
+		CHECK(g_bit == (IN.num && KIN(IN.blk, IN.num) ? (IN.inuse > 0) : bit0), "bitmap: exactly the clusters of the range become inuse");
+		CHECK(g_gfree == (IN.inuse > 0 ? gfree0 - nc : gfree0 + nc), "ghost group's free count moves by the clusters of the range inside the group");
+		CHECK(g_gflags == (isect ? (gflags0 & ~(unsigned int)EXT2_BG_BLOCK_UNINIT) : gflags0), "BLOCK_UNINIT cleared iff the group is touched");
+		CHECK(g_gfresh == 1, "descriptor checksum current");
 		CHECK(g_sfree == (IN.inuse > 0 ? sfree0 - IN.num : sfree0 + IN.num), "superblock free blocks move by num");
 		CHECK(FS.flags == (flags0 | EXT2_FLAG_DIRTY | EXT2_FLAG_CHANGED | EXT2_FLAG_BB_DIRTY), "dirty flags");
-		CHECK(IN.have_cb ? (g_cb_calls == 1 && g_cb_blk == IN.blk && g_cb_num == IN.num) : g_cb_calls == 0, "callback told exactly this range");
+		CHECK(IN.have_cb ? g_cb_calls == 1 : g_cb_calls == 0, "callback called once when installed");
+#ifdef FULL
+		CHECK(!IN.have_cb || (g_cb_blk == IN.blk && g_cb_num == IN.num), "callback told exactly this range");
+#endif
 		REACH("active");
+		if (isect && isect < IN.num) REACH("range covers the ghost group and other groups");
+		if (isect == 0 && IN.num) REACH("range misses the ghost group");
 	}
 	CHECK(g_badgroup == 0, "descriptor accessors only called with a valid group");
 	REACH("end");
 }
 
-/* constant cluster ratio per call: keeps the function's division by the ratio a shift */
-static void range_cases(void)
-{
-	ASSUME(IN.crb == 0 || IN.crb == 4);
-	if (IN.crb == 0) { FS.cluster_ratio_bits = 0; range_body(); }
-	else { FS.cluster_ratio_bits = 4; range_body(); }
-}
-
-void h_range(void)
-{
-	build_fs();
-	range_cases();
-}
-
-void h_range_nocb(void)
-{
-	build_fs();
-	ASSUME(!IN.have_cb);
-	ASSUME(IN.blk >= IN.first_data_block);
-	range_cases();
-}
+void h_range(void) { range_body(); }
+void h_range_full(void) { range_body(); }
